@@ -7,6 +7,8 @@ Reading rules (the trusted part of this translator, DESIGN §4.4):
 * `with patch(...)` (directly or through a name bound to `patch(...)`) is `withRes sites body`;
 * the loop that sweeps `sys.modules` is `relAll` of the fake and of the project modules;
 * `try: import … except ImportError:` is "either the imports or the handler" (imports raise nothing else);
+* `sys.path.remove(X)` outside such a guard may raise (the entry can be gone); `sys.meta_path.remove(hook)` is
+  taken not to raise (scripts do not remove import hooks they did not install);
 * a release guarded by a test that says "if it is held" (`X in sys.path`, `tok is not None`) is read as the
   bare release (releasing what is not held is a no-op in the model);
 * `try/except` handlers may or may not match; `if` is a free choice; a `for` whose body holds no acquisition or
@@ -122,7 +124,9 @@ def _stmt(sk: Skel, s: ast.stmt, probe=False) -> str:
             if name == "sys.path.append":
                 return "(.acq %d)" % sk.rid("sys.path:" + ast.unparse(v.args[0]))
             if name == "sys.path.remove":
-                return "(.rel %d)" % sk.rid("sys.path:" + ast.unparse(v.args[0]))
+                # list.remove raises ValueError when the entry is gone (scripts do edit sys.path): the bare call may
+                # raise; under a guard `if X in sys.path:` it cannot (the If case strips the `.call`)
+                return "(.seq .call (.rel %d))" % sk.rid("sys.path:" + ast.unparse(v.args[0]))
             if name == "logging.captureWarnings":
                 on = ast.unparse(v.args[0]) == "True"
                 return "(.%s %d)" % ("acq" if on else "rel", sk.rid("warnings.showwarning (logging.captureWarnings)"))
@@ -170,6 +174,8 @@ def _stmt(sk: Skel, s: ast.stmt, probe=False) -> str:
     if isinstance(s, ast.If):
         if _guard_is_held_test(s.test) and not s.orelse:
             body = _block(sk, s.body, probe)
+            if ast.unparse(s.test).endswith(" in sys.path"):
+                body = body.replace("(.seq .call (.rel", "(.seq .skip (.rel")
             if ".rel" in body and ".acq" not in body:
                 return body
             if ".acq" in body and ".rel" not in body:
